@@ -3,6 +3,25 @@ import vf
 import c0x_common as cx
 
 
+_M = 2 ** 64 - 1
+
+
+def _splitmix(s):
+    s = (s + 0x9e3779b97f4a7c15) & _M
+    z = s
+    z = ((z ^ (z >> 30)) * 0xbf58476d1ce4e5b9) & _M
+    z = ((z ^ (z >> 27)) * 0x94d049bb133111eb) & _M
+    return s, z ^ (z >> 31)
+
+
+def _mix(a, b):
+    """vh_mix() of harness/common/vh.c"""
+    s = (a ^ ((b * 0xd6e8feb86659fd93) & _M) ^ 0x2545f4914f6cdd1d) & _M
+    s, _ = _splitmix(s)
+    s, z = _splitmix(s)
+    return z
+
+
 def build(flavor='asan'):
     return cx.build('c09', flavor)
 
@@ -13,7 +32,12 @@ def rebuild_for_replay(rec):
 
 def run(chk):
     per = chk.pick(600, 2500)            # per shard: 9.6e3 / 4.0e4 trees
-    chk.run('asan', build(), per)
+    r = chk.run('asan', build(), per)
+    # which maximum nesting depths were actually reached (the harness records vh_mix(0xDEE9, depth) as a coverage hash)
+    reached = [d for d in range(256) if (_mix(0xDEE9, d) or 1) in r.cov]
+    chk.cov['max_depths_reached'] = len(reached)
+    if not chk.quick() and len(reached) < 256:
+        chk.inconclusive.append('thorough tier must reach every nesting depth 0..255; missing: %s' % [d for d in range(256) if d not in reached][:20])
     if not chk.quick():
         # memcheck: any branch on / use of an uninitialised byte in the parser (which pattern-fill cannot expose) is an error
         chk.run('memcheck', cx.build('c09', 'plain'), 40, wrapper=cx.MEMCHECK, timeout=3000)
